@@ -795,4 +795,8 @@ def check(ctx, rep):
 
     # lazy-logging pastes literal pieces into one literal: a quote the guard lets through changes (or breaks) the program
     rule_strlit(ctx, rep)
+    from .c09 import rule_detector_fresh
+
+    # a refactoring codemod rewrites the construct its detector reported *now*: positions from a scan taken before earlier rewrites point at other code
+    rule_detector_fresh(ctx, rep)
     rep.not_covered += ["observational equivalence over programs and runtime values", "SQL parameterisation returning the same rows", "tuple-valued names producing nested tuples in combine_args"]
